@@ -3,7 +3,7 @@
 -/
 import Keto.Model.Handlers
 import Keto.Props.C03
-import Keto.Proofs.FactsTie
+import Keto.Proofs.FactsTieBatch
 
 namespace Keto.H
 open Keto
